@@ -1,0 +1,14 @@
+//go:build verif
+
+package distance
+
+// Exported aliases of the unexported distance functions for the verification
+// harnesses: the pure-Go fallbacks (the code a CPU without AVX2/FMA runs) and
+// the functions the dispatcher selected on this CPU.
+var (
+	VerifSquaredEuclideanPureGo FloatDistFunc = squaredEuclideanDistancePureGo
+	VerifDotPureGo              FloatDistFunc = dotProductPureGo
+	VerifHamming                BitDistFunc   = hammingDistance
+	VerifJaccard                BitDistFunc   = jaccardDistance
+	VerifHaversine              FloatDistFunc = haversineDistance
+)
